@@ -6,7 +6,7 @@
 
   * The configurable moving average `MA.init` / `MAInst.next` *realises* a history function:
     `Realises f m h` — after the inputs `h` the instance `m` answers `f (h ++ [x])` to every next input `x`,
-    for ever (`C05_realises_run`).  Proved here for the kinds the indicators use by default (SMA: arithmetic mean
+    for ever (`C05_realises_run`).  Proved here for SMA, EMA (the kinds the indicators use by default), WMA and RMA (SMA: arithmetic mean
     of the last `n` values with the construction value as prehistory; EMA: the recurrence with α = 2/(n+1));
     the other kinds' machines are related to their formulas in C02/C03 and compose the same way.
   * MACD (every stream, every pair of realised averages): value 0 is `f₁(sources) − f₂(sources)`, value 1 is
@@ -56,6 +56,7 @@ import YataProofs.Indicators.MFIRange
 import YataProofs.Indicators.Irrational
 import YataProofs.Indicators.Tier2
 import YataProofs.Indicators.Tier2b
+import YataProofs.Indicators.Realises2
 namespace Yata.C05
 open Yata Yata.Ind
 
@@ -271,6 +272,14 @@ theorem C05_tsi_step {aL aS v0 : ℚ} {g : List ℚ → ℚ} {srcs ts : List ℚ
           else [.quot num den 2 2 .price [] (some 0), .unit (g (ts ++ [t])) (2 * maK s.smooth)]), s') ∧
       TSIx.Inv aL aS v0 g (srcs ++ [x]) (ts ++ [t]) s' ∧ s'.cfg = s.cfg := TSIx.vals_spec k smi h
 
+theorem C05_wma_realises {P n : Nat} (v : ℚ) (hn0 : 0 < n) (hn : n ≤ P - 1) :
+    ∃ m, MA.init P { kind := .wma, length := n } v = .ok m ∧ Realises (fun h => Spec.wma n v h) m [] :=
+  wma_realises v hn0 hn
+
+theorem C05_rma_realises {P n : Nat} (v : ℚ) (hn0 : 0 < n) :
+    ∃ m, MA.init P { kind := .rma, length := n } v = .ok m ∧ Realises (fun h => Spec.emaRec (1 / (n : ℚ)) v h) m [] :=
+  rma_realises v hn0
+
 /-! non-vacuity: a reachable MACD state satisfies the invariant (both default averages are EMAs) -/
 example : ∃ m, MA.init 255 { kind := .ema, length := 12 } (100 : ℚ) = .ok m ∧
     Realises (fun h => Spec.emaRec (((2 : Nat) : ℚ) / ((12 + 1 : Nat) : ℚ)) 100 h) m [] :=
@@ -307,3 +316,5 @@ end Yata.C05
 #print axioms Yata.C05.C05_envelopes_step
 #print axioms Yata.C05.C05_klinger_step
 #print axioms Yata.C05.C05_tsi_step
+#print axioms Yata.C05.C05_wma_realises
+#print axioms Yata.C05.C05_rma_realises
